@@ -19,7 +19,7 @@ def q3(p, u=U):
     return [q(c, u) for c in p]
 
 
-def _builder(res, ccw, start, dp=DP, rot=None):
+def _builder(res, ccw, start, dp=DP, rot=None, feed=None):
     from gscrib import GCodeBuilder
     g = GCodeBuilder(decimal_places=dp, line_endings="\\n")
     try:
@@ -33,6 +33,10 @@ def _builder(res, ccw, start, dp=DP, rot=None):
     g.set_direction("counter" if ccw else "clockwise")
     if rot is not None:
         g.transform.rotate(rot)          # the work frame is rotated before anything moves: the machine starts at the image of `start`
+    if feed:
+        # a feed rate is in force when the curve is traced (added after seed C12j: the segment length coupled to the programmed
+        # feed); segment lengths are a matter of the resolution alone
+        g.set_feed_rate(feed)
     g.move(x=start[0], y=start[1], z=start[2])
     rw.take()
     return g, rw
@@ -96,6 +100,14 @@ def _call(g, req, rel):
                 getattr(g, op[:-5])(**{n: (off if rel else ab)["xyz".index(n)] for n in names})
             elif op in ("move_absolute", "rapid_absolute"):
                 getattr(g, op)(x=ab[0], y=ab[1], z=ab[2])
+            elif op == "refused_abs":
+                # an absolute-bypass move the builder refuses (negative feed), the program going on (added after seed C11j: the
+                # mode was switched by hand and not switched back when the move raised); then the waypoint by a plain move
+                try:
+                    g.move_absolute(x=ab[0], y=ab[1], z=ab[2], F=-1.0)
+                except ValueError:
+                    pass
+                g.move(off if rel else ab)
             elif op == "ctx_switch":
                 # a context of the mode the builder is ALREADY in, the mode switched inside: on exit the mode in force at
                 # entry must be back (added after seed C11e)
@@ -134,7 +146,7 @@ def rotated(p, deg):
 
 def _run(req, res, rel):
     dp = req.get("dp", DP)
-    g, rw = _builder(res, req["ccw"], req["start"], dp, req.get("rot"))
+    g, rw = _builder(res, req["ccw"], req["start"], dp, req.get("rot"), req.get("feed"))
     if req.get("warm"):
         # the builder has a history: the same request was traced before with another resolution and direction, and the tool
         # was brought back (anything the tracer remembered from that run must not leak into this one)
@@ -244,6 +256,8 @@ def gen(rng, shape=None, allow_tiny=True):
     ccw = rng.random() < 0.5
     s = pt(rng) if rng.random() < 0.85 else [0.0, 0.0, 0.0]
     req = {"shape": shape, "res": res, "ccw": ccw, "start": s, "turns": 1, "warm": rng.random() < 0.3}
+    if rng.random() < 0.3:
+        req["feed"] = rng.choice([600.0, 3000.0, 12000.0, 30000.0])
     if shape in ("arc", "arc_radius", "circle", "helix") and rng.random() < 0.2:
         # the curve traced in a work frame rotated about Z (added after seed C12h: a resolution "compensated" for the active
         # transform): segment lengths, radii and sweeps are those of the request, seen through the rotation
@@ -340,7 +354,8 @@ def gen(rng, shape=None, allow_tiny=True):
         pts, prev, ops = [], s, []
         for _ in range(n):
             p = [round(prev[0] + rng.uniform(-20, 20), 2), round(prev[1] + rng.uniform(-20, 20), 2), round(prev[2] + rng.uniform(-4, 4), 2)]
-            op = rng.choice(["move", "rapid", "move_absolute", "rapid_absolute", "ctx_abs", "ctx_rel", "ctx_switch", "move_part", "rapid_part"])
+            op = rng.choice(["move", "rapid", "move_absolute", "rapid_absolute", "ctx_abs", "ctx_rel", "ctx_switch", "move_part", "rapid_part",
+                             "refused_abs"])
             if op.endswith("_part"):
                 keep = rng.choice([(0,), (1,), (2,), (0, 1), (0, 2)])
                 p = [p[i] if i in keep else prev[i] for i in range(3)]
